@@ -33,7 +33,7 @@ def run(ctx):
         evs = [event_strs(p) for p in okp]
     ctx.check("C02-R3", "connect: request built from the URL", bool(evs) and all(any(re.match(r"^SessionRequest::new\(", e) for e in ev) for ev in evs),
               "Endpoint::connect does not build the request with SessionRequest::new(url)", where(fn))
-    ctx.check("C02-R3", "connect: frame written = request().headers().generate_frame()", bool(evs) and all(any(re.search(r"::write_frame\(.*,Headers::generate_frame\(&\*?SessionRequest::headers\(&\*?<impl .*>::request\(", e) for e in ev) for ev in evs),
+    ctx.check("C02-R3", "connect: frame written = request().headers().generate_frame()", bool(evs) and all(any(re.search(r"::write_frame\(.*,Headers::generate_frame\(SessionRequest::headers\(<impl .*>::request\(", e) for e in ev) for ev in evs),
               "Endpoint::connect does not write stream_session.request().headers().generate_frame()", where(fn))
     with depth_limit(5):
         loops = [p for p in walk(fn) if p.leaf[0] == "loop" and path_sig(p)[0] and path_sig(p)[0][-1].startswith("SessionRequest::insert(")]
@@ -51,12 +51,12 @@ def run(ctx):
     ctx.check("C02-R3", "proto into_session stores the request", sg == ["return stream::Stream(Bi,Session::new(session_request))"], "proto into_session changed: %s" % sg, where(f))
     f = A.fn("wtransport_proto::headers::Headers::with_frame")
     sg = sorted(path_sig(p)[1] for p in nonpanic(walk(f)))
-    ctx.check("C02-R3", "Headers::with_frame = decode(payload)", any(re.match(r"^return Result::Ok\(Headers\(ok\(Decoder::decode\(&?\*?Frame::payload\(&\*frame\)\)\)\)\)$", l) for l in sg),
+    ctx.check("C02-R3", "Headers::with_frame = decode(payload)", any(re.match(r"^return Result::Ok\(Headers\(ok\(Decoder::decode\(Frame::payload\(frame\)\)\)\)\)$", l) for l in sg),
               "Headers::with_frame does not wrap Decoder::decode(frame.payload()) unchanged: %s" % sg, where(f))
     for acc, key in (("authority", ":authority"), ("path", ":path")):
         f = A.fn("wtransport_proto::session::SessionRequest::%s" % acc)
         sg = [path_sig(p)[1] for p in nonpanic(walk(f))]
-        ctx.check("C02-R3", "SessionRequest::%s reads '%s'" % (acc, key), len(sg) == 1 and ("Headers::get(&*self.0,'%s')" % key) in sg[0], "SessionRequest::%s does not return the '%s' field: %s" % (acc, key, sg), where(f))
+        ctx.check("C02-R3", "SessionRequest::%s reads '%s'" % (acc, key), len(sg) == 1 and ("Headers::get(self.0,'%s')" % key) in sg[0], "SessionRequest::%s does not return the '%s' field: %s" % (acc, key, sg), where(f))
     f = A.fn("wtransport_proto::headers::Headers::get")
     sg = [path_sig(p)[1] for p in nonpanic(walk(f))]
     ctx.check("C02-R3", "Headers::get is a map lookup", len(sg) == 1 and "HashMap" in sg[0] and "::get(" in sg[0], "Headers::get changed: %s" % sg, where(f))
@@ -75,9 +75,9 @@ def run(ctx):
         ps = nonpanic(walk(f))
         okp = [p for p in ps if path_sig(p)[1].startswith("return Result::Ok(Connection::new(")]
         ev = [event_strs(p) for p in okp]
-    ctx.check("C02-R4", "accept starts from SessionResponse::ok()", bool(ev) and all(any(e == "SessionResponse::ok()" for e in x) and any(re.match(r"^await SessionRequest::send_response\(&self,SessionResponse::ok\(\)\)$", e) for e in x) for x in ev),
+    ctx.check("C02-R4", "accept starts from SessionResponse::ok()", bool(ev) and all(any(e == "SessionResponse::ok()" for e in x) and any(re.match(r"^await SessionRequest::send_response\(self,SessionResponse::ok\(\)\)$", e) for e in x) for x in ev),
               "accept_impl does not send SessionResponse::ok(): %s" % [[e for e in x if "send_response" in e] for x in ev], where(f))
-    ctx.check("C02-R4", "accept registers the session before returning", bool(ev) and all(any(re.match(r"^await Driver::register_session\(&self\.driver,self\.stream_session\)$", e) for e in x) for x in ev), "accept_impl does not register the session stream", where(f))
+    ctx.check("C02-R4", "accept registers the session before returning", bool(ev) and all(any(re.match(r"^await Driver::register_session\(self\.driver,self\.stream_session\)$", e) for e in x) for x in ev), "accept_impl does not register the session stream", where(f))
     for nm, ctor in (("forbidden", "forbidden"), ("not_found", "not_found"), ("too_many_requests", "too_many_requests")):
         f = A.find1(r"^wtransport::endpoint::SessionRequest::%s::\{closure#0\}$" % nm)
         ev = [e for p in nonpanic(walk(f)) for e in event_strs(p)]
@@ -91,7 +91,7 @@ def run(ctx):
     f = A.find1(r"^wtransport::endpoint::SessionRequest::send_response::\{closure#0\}$")
     with depth_limit(6):
         ev = [e for p in nonpanic(walk(f)) for e in event_strs(p)]
-    ctx.check("C02-R4", "send_response writes response.headers().generate_frame()", any(re.search(r"::write_frame\(&\*?self\.stream_session,Headers::generate_frame\(&\*?SessionResponse::headers\(&response\)\)\)$", e) for e in ev), "send_response does not write the response headers frame: %s" % [e for e in ev if "write_frame" in e], where(f))
+    ctx.check("C02-R4", "send_response writes response.headers().generate_frame()", any(re.search(r"::write_frame\(self\.stream_session,Headers::generate_frame\(SessionResponse::headers\(response\)\)\)$", e) for e in ev), "send_response does not write the response headers frame: %s" % [e for e in ev if "write_frame" in e], where(f))
 
     ctx.rule("C02-R5", "both endpoints use the CONNECT stream's id as session id")
     sites = set()
@@ -101,5 +101,5 @@ def run(ctx):
         sites.add(fn2.path)
         with depth_limit(4):
             arg = canon(ev[2][2])
-        ctx.check("C02-R5", "Connection::new@%s" % fn2.path.split("::")[-2], re.match(r"^<impl .*Session>>>::session_id\(&", arg) is not None, "%s: session id argument is %s" % (fn2.path, arg[:100]), ev[4], key="Connection::new@%s" % fn2.path)
+        ctx.check("C02-R5", "Connection::new@%s" % fn2.path.split("::")[-2], re.match(r"^<impl .*Session>>>::session_id\(", arg) is not None, "%s: session id argument is %s" % (fn2.path, arg[:100]), ev[4], key="Connection::new@%s" % fn2.path)
     ctx.floor("C02-R5", "Connection::new call sites", len(sites), 2)
